@@ -30,6 +30,8 @@ class Interp:
         self.col = col
         self.ops = []
         self.stack = []  # active contexts, innermost last
+        self.pending = []  # context managers built (enable_pool(...) / auto_checkpoint(...) called) but not entered yet
+        self.reusable = None  # a pool handler that was left with close_pool=False: it may be entered again
         self.A = None
         self.model = None
         self.n_samples_run = 0
@@ -75,7 +77,8 @@ class Interp:
 
     def _check_restored(self, lvl, snap, how):
         A = self.A
-        w = {"kind": lvl["kind"], "exit": how, "depth": len(self.stack) + 1, "primed": self.primed}
+        w = {"kind": lvl["kind"], "exit": how, "depth": len(self.stack) + 1, "primed": self.primed,
+             "built_earlier": bool(lvl.get("built_earlier")), "reused": bool(lvl.get("reused"))}
         if A.log_likelihood is not snap["ll"]:
             raise Violation("c19.likelihood_not_restored", f"after leaving {lvl['kind']} ({how}) at depth {w['depth']} the instance's "
                             f"log_likelihood is not the object it was on entry", w)
@@ -122,6 +125,50 @@ class Interp:
         if not d or d.get("path") != path or d.get("every") != every:
             raise Violation("c19.auto_not_installed", "inside auto_checkpoint the defaults do not name the requested file/cadence", {})
 
+    # "on entry" means when the with-statement is entered, not when the context manager object was made: a handler may be
+    # built first and entered later (two handlers made up front and then nested), or entered a second time
+    def op_build_pool(self, close_pool: bool, parallelize_prior: bool):
+        if len(self.pending) >= 2:
+            return
+        self.ops.append(("build_pool", {"close_pool": close_pool, "parallelize_prior": parallelize_prior}))
+        pool = FakePool(fail_map_at=None)
+        cm = self.A.enable_pool(pool, close_pool=close_pool, parallelize_prior=parallelize_prior)
+        self.pending.append({"kind": "enable_pool", "cm": cm, "pool": pool, "close_pool": close_pool})
+
+    def op_build_auto(self, file_id: int, every: int):
+        if len(self.pending) >= 2:
+            return
+        self.ops.append(("build_auto", {"file_id": file_id, "every": every}))
+        path = os.path.join(self.workdir, f"auto{file_id}.h5")
+        cm = self.A.auto_checkpoint(path, every=every)
+        self.pending.append({"kind": "auto_checkpoint", "cm": cm, "path": path, "every": every})
+
+    def op_enter_built(self, which: int):
+        if not self.pending or len(self.stack) >= MAX_DEPTH:
+            return
+        self.ops.append(("enter_built", {"which": which}))
+        item = self.pending.pop(which % len(self.pending))
+        snap = self._snapshot()
+        item["cm"].__enter__()
+        self.stack.append({**item, "snap": snap, "built_earlier": True})
+        self.col.fault("context_built_before_entry")
+        if item["kind"] == "enable_pool" and self.A.log_likelihood is snap["ll"]:
+            raise Violation("c19.pool_not_installed", "inside enable_pool the likelihood was not replaced by a map-aware callable", {})
+        if item["kind"] == "auto_checkpoint":
+            d = getattr(self.A, "_checkpoint_defaults", None)
+            if not d or d.get("path") != item["path"] or d.get("every") != item["every"]:
+                raise Violation("c19.auto_not_installed", "inside auto_checkpoint the defaults do not name the requested file/cadence", {})
+
+    def op_reenter_pool(self):
+        if self.reusable is None or len(self.stack) >= MAX_DEPTH:
+            return
+        self.ops.append(("reenter_pool", {}))
+        item, self.reusable = self.reusable, None
+        snap = self._snapshot()
+        item["cm"].__enter__()
+        self.stack.append({"kind": "enable_pool", "cm": item["cm"], "pool": item["pool"], "close_pool": False, "snap": snap, "reused": True})
+        self.col.fault("pool_handler_entered_again")
+
     def _exit_level(self, exc):
         lvl = self.stack.pop()
         how = "exception" if exc is not None else "normal"
@@ -145,7 +192,10 @@ class Interp:
             if p.n_close != want or p.n_join != want:
                 raise Violation("c19.pool_close", f"enable_pool(close_pool={lvl['close_pool']}) left the pool with close={p.n_close} join={p.n_join} "
                                 f"after a {how} exit", {"close_pool": lvl["close_pool"], "exit": how})
-        self.col.nontrivial.add((lvl["kind"], how if exc is None else type(exc).__name__, len(self.stack) + 1, self.primed))
+        if lvl["kind"] == "enable_pool" and not lvl["close_pool"] and exc is None and not lvl.get("reused"):
+            self.reusable = lvl
+        self.col.nontrivial.add((lvl["kind"], how if exc is None else type(exc).__name__, len(self.stack) + 1, self.primed,
+                                 bool(lvl.get("built_earlier")), bool(lvl.get("reused"))))
 
     def op_exit_normal(self):
         if not self.stack:
@@ -220,6 +270,22 @@ def make_machine(interp_factory, workdir, col):
         @rule(file_id=st.integers(0, 2), every=st.integers(1, 3), save_config=st.booleans())
         def enter_auto(self, file_id, every, save_config):
             self.do("enter_auto", file_id=file_id, every=every, save_config=save_config)
+
+        @rule(close_pool=st.booleans(), parallelize_prior=st.booleans())
+        def build_pool(self, close_pool, parallelize_prior):
+            self.do("build_pool", close_pool=close_pool, parallelize_prior=parallelize_prior)
+
+        @rule(file_id=st.integers(0, 2), every=st.integers(1, 3))
+        def build_auto(self, file_id, every):
+            self.do("build_auto", file_id=file_id, every=every)
+
+        @rule(which=st.integers(0, 1))
+        def enter_built(self, which):
+            self.do("enter_built", which=which)
+
+        @rule()
+        def reenter_pool(self):
+            self.do("reenter_pool", )
 
         @rule()
         def exit_normal(self):
